@@ -463,7 +463,7 @@ _ex(r'[{,]\s*(undefined|Infinity)\s*[,}]|\b(undefined|Infinity)\s*(=(?!=)|\+\+|-
     'K13 undefined/Infinity as shorthand property or assignment/update target ({undefined} -> {0[0]}, Infinity=1 -> 1/0=1: SyntaxError)')
 _EMPTY = r"""(?:""|'')"""
 # statement bodies that the minifier reduces to nothing: ; {} {;} {var x;} {let y=...;}
-_EMPTYBODY = r'(?:;|\{\s*;?\s*\}|\{\s*var\s[^{};=]*;?\s*;?\s*\}|\{\s*(?:let|const)\s[^{};]*;?\s*;?\s*\})'
+_EMPTYBODY = r'(?:;|\{[;\s]*\}|\{\s*var\s[^{};=]*[;\s]*\}|\{\s*(?:let|const)\s[^{};]*[;\s]*\}|\{\s*\{\s*(?:let|const)\s[^{};]*[;\s]*\}[;\s]*\})'
 _ex(r"""(?<![\\"'])""" + _EMPTY + r"""(?=\s*\?(?![.?]))|\b(if|while)\s*\(\s*[!(\s]*""" + _EMPTY + r"""[)\s]*\)|!\s*\(*\s*""" + _EMPTY +
     r"""|[?:]\s*\(*""" + _EMPTY + r"""\s*\)*\s*[:;)]""",
     'K14 the empty string literal as a condition (treated as truthy: ""?a:b -> a)')
@@ -474,7 +474,7 @@ _ex(r'function\b[^(]*\([^)]*\b(undefined|NaN|Infinity)\b[^)]*\)\s*\{|\b(var|let|
     'K16 local bindings named undefined/NaN/Infinity (treated as the global constants)')
 _ex(r'\bvoid\s*\((?!\s*0\s*\))|\bvoid\s*(class\b|[\w.$]+\s*([-+*/%<>&|^]|instanceof\b|in\b|[!=]=)|[-+~!]|typeof\b|[\[{`])|'
     r'\bif\s*\([^;{}]*[-+*/%<>&|^!~=][^;{}]*\)\s*' + _EMPTYBODY + r'(\s*else\s*' + _EMPTYBODY + r')?(?!\s*else)|'
-    r'\{\s*(let|const)\s+\w+\s*=\s*[^;{}]*[-+*/%<>&|^!~][^;{}]*;?\s*\}',
+    r'\{\s*(let|const)\s+\w+\s*=\s*[^;{}]*[-+*/%<>&|^!~=][^;{}]*[;\s]*\}',
     'K17 operator/class/literal expressions in discarded position (void X, if(X);, if(X){let y=..}, {let x=X}): hasSideEffects does '
     'not look into the operands of a binary expression, so calls/valueOf/throws/static initialisers inside are dropped')
 _ex(r'(\|\||&&|\?\?)=', 'K19 logical assignment operators ||= &&= ??= (missing from the precedence tables: a||=(b,c) -> a||=b,c; '
@@ -493,6 +493,8 @@ _ex(r'\([^()]*\?\?[^()]*\)\s*\|(?![|=])', 'K26 a parenthesised ?? expression as 
 _ex(r'\belse\s*' + _EMPTYBODY + r'\s*\}\s*else\b', 'K27 if(a){if(b)S else{}}else T: the empty inner else is dropped and the outer else captures the inner if (dangling else)')
 _ex(lambda src: _comma_group_binop(src), 'K28 a parenthesised comma expression as left operand of an arithmetic/relational/bitwise operator '
     '((a,b==c)+d -> a,b==c+d in statement position)')
+_ex(r'\btypeof\s*\(\s*\(?[^()]*(\?[^()]*\)?\s*:|,)', 'K29 typeof of a parenthesised conditional/comma expression that reduces to a bare identifier '
+    '(typeof (c?b:b) -> typeof b: no ReferenceError for an undeclared b)')
 _ex(r'\bstatic\s+[0-9.]', 'K23 static class fields with numeric names (static 1=2 -> static1=2)')
 
 # ===================================================================================================
